@@ -417,7 +417,8 @@ func c09Chain(maxLen, ntx, maxRestarts int, zeroExpiry bool) {
 	opts = append(opts, []int{0}, []int{0, 0})
 	if ntx > 1 {
 		if used[1] {
-			opts = append(opts, []int{1, 0}, []int{1})
+			// both candidate orders: the nearer ancestor's transaction first or last in the builder's batch
+			opts = append(opts, []int{1, 0}, []int{1}, []int{0, 1})
 		} else {
 			opts = append(opts, []int{1, 0}, []int{1, 0, 1})
 		}
